@@ -296,7 +296,19 @@ func c04Feed(c *run.Ctx, dst ivg.Destination, rz *rec.Raster, vm *ref.VM, cfg c0
 		if exp.Skip != "" {
 			c.Count("skip_"+exp.Skip, 1)
 			if exp.Skip == "nstops<2" {
-				continue // not judged
+				// The specification is silent about gradients with fewer than two
+				// stops (DESIGN 6.3), so neither "skipped" nor a particular paint is
+				// demanded. The property's own clause still applies: a path whose
+				// paint is fully transparent causes no rasterizer activity.
+				for k := range calls {
+					if p := calls[k].Paint; calls[k].K == rec.RDraw && p != nil {
+						if (p.Kind == 0 && p.Uniform.A == 0) || (p.Kind == 1 && len(p.Colors) == 0) {
+							fail("activity-with-fully-transparent-paint/nstops<2", map[string]interface{}{"paint": fmt.Sprintf("%+v", *p)})
+							return false
+						}
+					}
+				}
+				continue
 			}
 			if rz.NMut != mutAtStart {
 				fail("activity-on-skipped-path/"+exp.Skip, nil)
